@@ -469,10 +469,16 @@ class Ops(Stream):
         for batch, (steps_all, r, ids_after) in zip(batches_of(case), o['outs']):
             args = []
             for s, steps in zip(batch, steps_all):
+                reserved = s['fmt'] == 'def' and s['pool'] == '_'
                 if is_err(steps[0]):
-                    if s['fmt'] == 'single' or s['pool'] is not None:
+                    if reserved:
+                        if steps[0]['err'] != 'DelegationException':
+                            return 'a pool definition named "_" was refused with ' + steps[0]['err']
+                    elif s['fmt'] == 'single' or s['pool'] is not None:
                         return 'constructor refused a well-formed delegation %r' % s['id']
                     continue
+                if reserved:
+                    return 'a pool definition with the reserved pool name "_" was accepted (it encodes as a single-pool delegation)'
                 has_details = False
                 if s['details'] is not None and not is_err(steps[1]):
                     kind = s['details'][0]
@@ -525,7 +531,8 @@ class Ops(Stream):
             return 'the container does not hold exactly the accepted delegations, keyed by their ids'
         for d in o['ds'][1]:
             a = accepted[d[1]]
-            if [d[0], d[2], d[3]] != [TY_CODE[a['type']], FMT_CODE[a['fmt']], a['pool']] or (d[4] is not None) != a['has_details']:
+            want_pool = None if a['fmt'] == 'single' else a['pool']       # a single-pool delegation keeps no pool name
+            if [d[0], d[2], d[3]] != [TY_CODE[a['type']], FMT_CODE[a['fmt']], want_pool] or (d[4] is not None) != a['has_details']:
                 return 'the container holds %r for the accepted delegation %r' % (d, a)
         if o['extra']:
             return 'unexpected keys in the encoding: %r' % o['extra']
@@ -541,10 +548,6 @@ class Ops(Stream):
         if o['dec'][0] != o['ds']:
             for a, b in zip(o['ds'][1], o['dec'][0][1]):
                 if a != b:
-                    if a[2] == 1 and a[3] == '_' and b[2] == 3:
-                        return 'roundtrip-differs KF-reserved-pool-name: a PoolDefinition for pool "_" decodes as SinglePool'
-                    if a[2] == 3 and a[3] is not None and b[3] is None and a[:3] == b[:3] and a[4] == b[4]:
-                        return 'roundtrip-differs KF-single-pool-name: the pool name given to a SinglePool delegation is lost'
                     return 'roundtrip differs: %r -> %r' % (a, b)
             return 'roundtrip differs'
         return None
@@ -727,9 +730,9 @@ class Json(Stream):
             if W_POOL_ID not in d and W_POOL not in d:
                 return 'no pool key'
             if W_POOL_ID not in d and (W_CAPS in d or W_LABS in d):
-                return 'KF-json-details-on-reference'
+                return 'details on a pool reference'
             if W_POOL_ID in d and W_CAPS in d and W_LABS in d:
-                return 'KF-json-mixed-content'
+                return 'capacities and labels mixed in one entry'
             if W_POOL_ID in d and wk not in d:
                 return 'wrong kind of content'
         return None
@@ -898,11 +901,13 @@ def gen_pool_spec(rng, ty, pid, did, wf, used_slots=None):
 
 
 def family_expectation(ty, P):
-    """from the observed pools (canonical list) only: 'invalid' | 'conflict' | 'mismatch' | 'ok'"""
+    """from the observed pools (canonical list) only: 'invalid' | 'reserved' | 'conflict' | 'mismatch' | 'ok'"""
     tc = TY_CODE[ty]
     for p in P:
         if p[2] is None or p[3] is None or not p[4] or p[5] is None:
             return 'invalid'
+    if any(p[1] == '_' for p in P):
+        return 'reserved'
     slots = []
     mism = False
     for p in P:
@@ -1064,10 +1069,11 @@ class PoolsS(Stream):
         got = sorted((k, pid) for k, pids in o['idx'][0] for pid in pids)
         if got != sorted((p[2], p[1]) for p in P):
             return 'the by-delegation index does not list every pool once under its delegation id'
-        if exp in ('conflict', 'mismatch'):
+        if exp in ('conflict', 'mismatch', 'reserved'):
             if not (is_err(o['g']) and o['g']['err'] == 'DelegationException'):
-                return 'regroup %s not rejected: %s' % (exp, 'a node takes part in two pools under one delegation id'
-                                                        if exp == 'conflict' else 'pool details of the other class')
+                return 'regroup %s not rejected: %s' % (exp, {'conflict': 'a node takes part in two pools under one delegation id',
+                                                              'mismatch': 'pool details of the other class',
+                                                              'reserved': 'a pool named "_" cannot be written as a definition'}[exp])
             return None
         if is_err(o['g']):
             return 'generate refused a well-formed family: ' + o['g']['err']
@@ -1090,7 +1096,7 @@ class PoolsS(Stream):
         return None
 
     def histogram(self, cases, obs):
-        h = {'ok': 0, 'invalid': 0, 'conflict': 0, 'mismatch': 0, 'n_pools': {}, 'defines_and_references': 0}
+        h = {'ok': 0, 'invalid': 0, 'reserved': 0, 'conflict': 0, 'mismatch': 0, 'n_pools': {}, 'defines_and_references': 0}
         for c, o in zip(cases, obs):
             e = family_expectation(c['ty'], o['P'])
             h[e] += 1
@@ -1475,58 +1481,9 @@ class C12(Check):
         'details dictionaries use field names or non-attribute names as keys (a key naming a method of the class is not modelled)',
         'label values were accepted by the Labels constructor (validators are deterministic: the same value is accepted again on decoding)',
         'node, pool and delegation ids are str (add_defined_for silently ignores other types)',
+        'a document is a JSON VALUE: json.loads has already collapsed a delegation id repeated in the text (last one wins) '
+        'before the library sees it',
     ]
-
-    def refuted_witnesses(self):
-        D, CL = lib()
-
-        def reserved_pool_name():
-            d = D.Delegation(atype=T(CAP), delegation_id='d1', aformat=F('def'), pool_id='_')
-            d.set_details(CL.Capacities(cpu=1))
-            ds = D.Delegations(atype=T(CAP))
-            ds.add_delegations(d)
-            ds2 = D.Delegations.from_json(json_str=ds.to_json(), atype=T(CAP))
-            a, b = obs_delegations(ds), obs_delegations(ds2)
-            return a != b, {'before': a, 'after': b}
-
-        def single_pool_name():
-            d = D.Delegation(atype=T(CAP), delegation_id='d1', aformat=F('single'), pool_id='p1')
-            d.set_details(CL.Capacities(cpu=1))
-            ds = D.Delegations(atype=T(CAP))
-            ds.add_delegations(d)
-            ds2 = D.Delegations.from_json(json_str=ds.to_json(), atype=T(CAP))
-            a, b = obs_delegations(ds), obs_delegations(ds2)
-            return a != b, {'before': a, 'after': b}
-
-        def json_details_on_reference():
-            text = '{"d1": {"pool": "p1", "capacities": {"cpu": 1}}}'
-            try:
-                ds = D.Delegations.from_json(json_str=text, atype=T(CAP))
-                return True, {'text': text, 'decoded': obs_delegations(ds)}
-            except Exception as e:
-                return False, {'text': text, 'raised': type(e).__name__}
-
-        def json_mixed_content():
-            text = '{"d1": {"pool_id": "p1", "capacities": {"cpu": 1}, "labels": {"vlan": "3"}}}'
-            try:
-                ds = D.Delegations.from_json(json_str=text, atype=T(CAP))
-                return True, {'text': text, 'decoded': obs_delegations(ds)}
-            except Exception as e:
-                return False, {'text': text, 'raised': type(e).__name__}
-
-        def json_text_duplicate_id():
-            text = '{"d1": {"pool": "p1"}, "d1": {"pool": "p2"}}'
-            try:
-                ds = D.Delegations.from_json(json_str=text, atype=T(CAP))
-                return True, {'text': text, 'decoded': obs_delegations(ds)}
-            except Exception as e:
-                return False, {'text': text, 'raised': type(e).__name__}
-
-        return [('C12_roundtrip_reserved_pool_name_refuted', reserved_pool_name),
-                ('C12_roundtrip_single_pool_name_refuted', single_pool_name),
-                ('C12_from_json_rejects_details_on_ref_refuted', json_details_on_reference),
-                ('C12_from_json_rejects_mixed_refuted', json_mixed_content),
-                ('json_text_duplicate_id', json_text_duplicate_id)]
 
 
 if __name__ == '__main__':
